@@ -11,7 +11,21 @@ from eth_utils import ValidationError  # noqa: E402
 
 ID = "C11"
 LEAN_IMPORTS = ["PyTrie.Props.C11"]
-THEOREMS = []
+THEOREMS = [
+    "PyTrie.Props.C11.wf_runCalls",
+    "PyTrie.Props.C11.markAllComplete_spec",
+    "PyTrie.Props.C11.explore_spec",
+    "PyTrie.Props.C11.explore_ok_iff",
+    "PyTrie.Props.C11.explore_err",
+    "PyTrie.Props.C11.explore_comm",
+    "PyTrie.Props.C11.explore_comm_ok",
+    "PyTrie.Props.C11.fog_ext",
+    "PyTrie.Props.C11.isComplete_iff",
+    "PyTrie.Props.C11.markAllComplete_eq_fold",
+    "PyTrie.Props.C11.nearestRight_spec",
+    "PyTrie.Props.C11.nearestUnknown_spec",
+    "PyTrie.Props.C11.deserialize_serialize",
+]
 RULE = ("random exploration scripts on a fresh fog: explore with leaf (no), extension (one, length 1-4), branch (several "
         "length-1, nibbles 0 and 15 included) and mixed-length sub-segment sets, valid and invalid (duplicates, nested, unknown "
         "prefix, the empty segment), mark_all_complete (valid, unknown, repeated prefix); after every call: the set of unexplored "
@@ -54,7 +68,7 @@ def gen_subs(rng):
 
 
 def gen_cases(rng, tier):
-    n = 1500 if tier == "quick" else 25000
+    n = 6000 if tier == "quick" else 80000
     for i in range(n):
         steps = []
         for _ in range(rng.randint(1, 14)):
